@@ -22,7 +22,11 @@ func TestC14(t *testing.T) {
 	if only := os.Getenv("VERIF_CASE"); only != "" {
 		var c int
 		fmt.Sscan(only, &c)
-		scenario(rec, c)
+		if os.Getenv("VERIF_FAMILY") == "replicas" {
+			replicaSetChanges(rec, c)
+		} else {
+			scenario(rec, c)
+		}
 		return
 	}
 	n := rec.N(16, 200)
@@ -30,6 +34,283 @@ func TestC14(t *testing.T) {
 		if rec.Mine(c) {
 			scenario(rec, c)
 		}
+	}
+	m := rec.N(4, 40)
+	for c := 0; c < m; c++ {
+		if rec.Mine(c + 3) {
+			replicaSetChanges(rec, c)
+		}
+	}
+}
+
+// replicaSetChanges: datasets that want more replicas than there are members
+// get node 3 added to their partitions when it joins, and lose it again when
+// it is removed. After each change every member must list the same replica
+// assignment, the listed assignment must be the one the node routes by, and
+// it must survive compaction + restart (replay or snapshot restore) and reach
+// a member that was down during the change.
+func replicaSetChanges(rec *mon.Recorder, c int) {
+	rng := rec.Rand("c14-replicas", c)
+	desc := fmt.Sprintf("replica-set-changes case=%d nodes=3", c)
+	rec.Current(desc)
+	cl := sim.New(sim.Options{Nodes: 3, Dir: os.Getenv("VERIF_SCRATCH") + fmt.Sprintf("/c14r-%d", c), TickEvery: 5 * time.Millisecond, Seed: rec.Seed() + int64(c), NoJoinBarrier: true})
+	defer cl.Close()
+	var steps []string
+	replay := func() map[string]interface{} {
+		return map[string]interface{}{"case": c, "seed": rec.Seed(), "desc": desc, "steps": steps}
+	}
+	for i := 0; i < 2; i++ {
+		if err := cl.StartNode(i); err != nil {
+			rec.Inconclusive(fmt.Sprintf("%s: node %d: %v", desc, i+1, err))
+			return
+		}
+		if i == 0 {
+			cl.WaitFor(20*time.Second, func() bool { return cl.Nodes[0].ZeroLeader() != 0 })
+		}
+		if cl.WaitMembership(i+1, 20*time.Second) != nil {
+			rec.Inconclusive(desc + ": membership not reached")
+			return
+		}
+	}
+	// datasets: some want 3 replicas (under-replicated with two members), some 1 or 2
+	type ds struct {
+		id   uuid.UUID
+		repl uint32
+	}
+	var sets []ds
+	for i := 0; i < 2+rng.Intn(3); i++ {
+		repl := uint32(3)
+		if i > 0 && rng.Intn(3) == 0 {
+			repl = uint32(1 + rng.Intn(2))
+		}
+		id, _, err := cl.CreateDataset(rng.Intn(2), 2, uint32(1+rng.Intn(3)), repl, pb.Space_Euclidean)
+		if err != nil {
+			rec.Inconclusive(desc + ": create: " + err.Error())
+			return
+		}
+		sets = append(sets, ds{id, repl})
+		steps = append(steps, fmt.Sprintf("create %s replication=%d", id, repl))
+	}
+	live := func() []*sim.Node {
+		var l []*sim.Node
+		for _, n := range cl.Nodes {
+			if !n.Dead() && n.In != nil {
+				l = append(l, n)
+			}
+		}
+		return l
+	}
+	// the assignment as one node lists it and as it routes by it
+	type view struct{ listed, effective string }
+	look := func(n *sim.Node) (view, bool) {
+		var v view
+		ok := cl.Guard(5*time.Second, func() {
+			l, err := n.DM().List(context.Background(), false)
+			if err != nil {
+				return
+			}
+			byId := map[uuid.UUID]*pb.Dataset{}
+			for _, m := range l {
+				byId[uuid.FromBytesOrNil(m.GetId())] = m
+			}
+			for _, d := range sets {
+				m := byId[d.id]
+				if m == nil {
+					v.listed += d.id.String() + ":missing;"
+					continue
+				}
+				dset := n.Dataset(d.id)
+				for _, p := range m.GetPartitions() {
+					pid := uuid.FromBytesOrNil(p.GetId())
+					v.listed += fmt.Sprintf("%s/%s=%v;", d.id.String()[:8], pid.String()[:8], p.GetNodeIds())
+					if dset != nil {
+						v.effective += fmt.Sprintf("%s/%s=%v;", d.id.String()[:8], pid.String()[:8], dset.VerifPartitionNodeIds(pid))
+					}
+				}
+			}
+		})
+		return v, ok && v.listed != ""
+	}
+	// settle waits until every live member lists the assignment `expect` accepts
+	// and then compares: across members, and listed against effective
+	agreed := ""
+	settle := func(phase string, expect func(listed string) bool) bool {
+		var last map[uint64]view
+		err := cl.WaitFor(40*time.Second, func() bool {
+			last = map[uint64]view{}
+			first := ""
+			for _, n := range live() {
+				v, ok := look(n)
+				if !ok {
+					return false
+				}
+				last[n.Id] = v
+				if first == "" {
+					first = v.listed
+				}
+				if v.listed != first || v.listed != v.effective || !expect(v.listed) {
+					return false
+				}
+			}
+			return first != ""
+		})
+		if err == nil {
+			for _, v := range last {
+				agreed = v.listed
+			}
+			rec.Count("replica_assignments_compared", int64(len(last)))
+			return true
+		}
+		// not settled: what the node routes by is the same object on a correct tree,
+		// so a persistent difference between listed and effective is a verdict of
+		// its own; a difference across members is one if nobody is still applying
+		r := replay()
+		for id, v := range last {
+			if v.listed != v.effective {
+				time.Sleep(2 * time.Second)
+				if v2, ok := look(cl.Nodes[id-1]); ok && v2.listed != v2.effective {
+					r["node"], r["listed"], r["effective"] = id, v2.listed, v2.effective
+					rec.Violation("catalogue:listed-replica-assignment-is-not-the-one-in-effect:"+phase, fmt.Sprintf("%s: node %d %s lists %s but routes by %s", desc, id, phase, v2.listed, v2.effective), r)
+					return false
+				}
+			}
+		}
+		applied := func() string {
+			s := ""
+			for _, n := range live() {
+				cl.Guard(3*time.Second, func() { s += fmt.Sprint(n.In.ZeroGroup.VerifStatus().Applied, ",") })
+			}
+			return s
+		}
+		a0 := applied()
+		time.Sleep(5 * time.Second)
+		views := map[string][]uint64{}
+		for _, n := range live() {
+			if v, ok := look(n); ok {
+				views[v.effective] = append(views[v.effective], n.Id)
+			}
+		}
+		if len(views) > 1 && applied() == a0 {
+			r["views"] = fmt.Sprint(views)
+			rec.Violation("catalogue:replica-assignment-differs-across-members:"+phase, fmt.Sprintf("%s: %s the members do not agree on the replica assignment although their catalogue logs are at rest: %v", desc, phase, views), r)
+			return false
+		}
+		rec.Inconclusive(fmt.Sprintf("%s: %s the expected replica assignment was not reached within the watchdog (the allocator's change may have been lost): %v", desc, phase, last))
+		return false
+	}
+	has3 := func(listed string, want bool) bool {
+		// every partition of a dataset that wants 3 replicas lists node 3 (or none does)
+		for _, d := range sets {
+			for _, part := range strings.Split(listed, ";") {
+				if !strings.HasPrefix(part, d.id.String()[:8]+"/") {
+					continue
+				}
+				in := strings.Contains(part, " 3]") || strings.Contains(part, "[3]") || strings.Contains(part, "[3 ") || strings.Contains(part, " 3 ")
+				if d.repl == 3 && in != want {
+					return false
+				}
+				if d.repl < 3 && in && want {
+					return false
+				}
+			}
+		}
+		return true
+	}
+	if !settle("before-any-change", func(l string) bool { return has3(l, false) }) {
+		return
+	}
+	// node 3 joins: the under-replicated partitions get it
+	if err := cl.StartNode(2); err != nil {
+		rec.Inconclusive(desc + ": join of node 3: " + err.Error())
+		return
+	}
+	steps = append(steps, "node 3 joins")
+	if !settle("after-a-node-was-added-to-under-replicated-partitions", func(l string) bool { return has3(l, true) }) {
+		return
+	}
+	rec.Count("replica_set_changes_observed", 1)
+	afterAdd := agreed
+	// compaction + restart of a member: replay / snapshot restore must give the same assignment
+	victim := cl.Nodes[rng.Intn(3)]
+	compact := c%2 == 0
+	if compact {
+		for _, n := range live() {
+			cl.TriggerSnapshot(n, uuid.Nil, 0)
+		}
+		time.Sleep(100 * time.Millisecond)
+		steps = append(steps, "catalogue log compacted")
+	}
+	steps = append(steps, fmt.Sprintf("restart of %d", victim.Id))
+	if err := cl.Restart(victim.Idx); err != nil {
+		restartFailed(rec, desc, victim.Id, err, replay())
+		return
+	}
+	ph := "after-restart-following-a-replica-set-change"
+	if compact {
+		ph = "after-restart-from-snapshot-following-a-replica-set-change"
+	}
+	if !settle(ph, func(l string) bool { return l == afterAdd }) {
+		return
+	}
+	// a member is down while node 3 is removed (its partitions lose it) and the log is compacted
+	lag := cl.Nodes[1]
+	if c%3 == 0 {
+		cl.Crash(lag.Idx)
+		cl.Teardown(lag.Idx)
+		steps = append(steps, "node 2 down")
+	} else {
+		lag = nil
+	}
+	var err error
+	if !cl.Guard(20*time.Second, func() { err = cl.Nodes[0].In.NodesManager.RemoveNode(3) }) || err != nil {
+		rec.Inconclusive(fmt.Sprintf("%s: removal of node 3: %v", desc, err))
+		return
+	}
+	steps = append(steps, "node 3 removed")
+	cl.Crash(2)
+	cl.Teardown(2)
+	if lag == nil {
+		if !settle("after-a-node-was-removed-from-its-partitions", func(l string) bool { return has3(l, false) }) {
+			return
+		}
+		rec.Count("replica_set_changes_observed", 1)
+	} else {
+		// with node 2 down the remaining member has no quorum for the replica-set
+		// changes: they commit once node 2 is back, which is caught up by the
+		// survivor's snapshot
+		for _, n := range live() {
+			cl.TriggerSnapshot(n, uuid.Nil, 0)
+		}
+		time.Sleep(100 * time.Millisecond)
+		steps = append(steps, "catalogue log compacted while node 2 is down")
+		if err := cl.StartNode(lag.Idx); err != nil {
+			restartFailed(rec, desc, lag.Id, err, replay())
+			return
+		}
+		steps = append(steps, "node 2 back")
+		// which partitions have lost node 3 by now depends on whose turn it is to
+		// change them (only a partition's first replica may, and it may have been
+		// the member that was down): the verdict is agreement, not a particular outcome
+		if !settle("after-a-node-was-removed-while-a-member-was-down", func(l string) bool { return true }) {
+			return
+		}
+		rec.Count("replica_set_changes_observed", 1)
+	}
+	afterRemove := agreed
+	// a last restart of everybody: same assignment from replay / snapshot
+	for _, n := range live() {
+		if err := cl.Restart(n.Idx); err != nil {
+			restartFailed(rec, desc, n.Id, err, replay())
+			return
+		}
+	}
+	steps = append(steps, "restart of every member")
+	if !settle("after-full-restart-following-replica-set-changes", func(l string) bool { return l == afterRemove }) {
+		return
+	}
+	rec.Case(mon.Digest(desc, steps), true)
+	if rec.WantSample() {
+		rec.Sample(replay())
 	}
 }
 
